@@ -586,6 +586,49 @@ def run_history(recipes, acc, idx):
                    % (i + 1, idx, len(recipes)), targets=tg), acc)
 
 
+def run_same_object_history(acc):
+    """The caller keeps ONE targets dictionary and edits it between calls
+    (core added to a chip's set, a chip's set replaced, chip swapped for
+    another): every call is judged against what the dictionary holds then."""
+    from rig.machine_control.regions import compress_flood_fill_regions
+    edits = [
+        ("add core in place", lambda t: t[(1, 1)].add(5)),
+        ("replace a chip's set", lambda t: t.__setitem__((2, 2), {7})),
+        ("swap a chip", lambda t: (t.pop((3, 3)), t.__setitem__((9, 9), {1}))),
+        ("empty a set in place", lambda t: t[(1, 1)].clear()),
+        ("complete a block", lambda t: t.update(
+            {(x, y): {1} for x in range(4, 8) for y in range(4, 8)})),
+        ("break the block", lambda t: t[(5, 5)].discard(1)),
+    ]
+    for first in range(len(edits)):
+        t = {(1, 1): {1}, (2, 2): {1, 2}, (3, 3): {1}, (40, 40): {3}}
+        seq = edits[first:] + edits[:first]
+        names = []
+        for step in range(len(seq) + 1):
+            acc.evaluations += 1
+            acc.nontrivial += 1
+            try:
+                pairs = list(compress_flood_fill_regions(t))
+                msg = check_pairs(pairs, {c: set(v) for c, v in t.items()})
+            except Exception as e:
+                msg = "raised %s: %s" % (type(e).__name__, e)
+            if msg:
+                acc.violation(dict(kind="same_object_history"),
+                              dict(recipe=dict(same_object=first),
+                                   desc="F9 same object"),
+                              "one dictionary edited between calls (%s): "
+                              "call %d: %s" % (", ".join(names) or "no edit "
+                                               "yet", step + 1, msg),
+                              size=step)
+                break
+            if step < len(seq):
+                names.append(seq[step][0])
+                try:
+                    seq[step][1](t)
+                except KeyError:
+                    pass
+
+
 def F9_histories():
     pool = F9_pool()
     hs = [[a, b] for a in pool for b in pool]
@@ -600,6 +643,8 @@ def F9(tier, acc, upto=None):
             break
         acc.nontrivial += 1
         run_history(h, acc, idx)
+    if upto is None:
+        run_same_object_history(acc)
     acc.sample(dict(family="F9", histories=len(hs)))
 
 
@@ -613,6 +658,9 @@ def run_shard(params, tier, acc):
 
 def replay(case, acc):
     rec = case["recipe"]
+    if "same_object" in rec:
+        run_same_object_history(acc)
+        return
     if "f10" in rec:
         F10("quick", acc)
         return
